@@ -163,6 +163,47 @@ Theorem C09_rejected_fatal : forall cf asked ph rest cs sched its x,
 Proof. exact rejected_fatal. Qed.
 Print Assumptions C09_rejected_fatal.
 
+(* ---- histories: several logins on ONE channel / driver object (open, close, open, ...) ---- *)
+(* the counters, the login buffer and return_attempts of the four loops of the current tree are locals
+   of the login function, initialised by every call (read from the AST by gen/gen_auth.py) *)
+Theorem C09_generated_counters_local :
+  gen_state_local_telnet_sync && gen_state_local_telnet_async &&
+  gen_state_local_ssh_sync && gen_state_local_ssh_async && cscope_eqb gen_counter_scope CsLocal = true.
+Proof. vm_compute. reflexivity. Qed.
+Print Assumptions C09_generated_counters_local.
+
+(* so every login of a history is a run from the initial state, whatever the earlier logins on the
+   same object read, wrote or counted: all the theorems above apply to each login of every history *)
+Theorem C09_history_independent : forall cf logins carried,
+  hist_run gen_counter_scope cf carried logins = map (run cf) logins.
+Proof. exact history_independent. Qed.
+Print Assumptions C09_history_independent.
+
+Theorem C09_history_closed_loop_independent : forall cf ss carried,
+  hist_cl gen_counter_scope cf carried ss = map (fun s => cl_run cf (fst s) (snd s)) ss.
+Proof. exact history_cl_independent. Qed.
+Print Assumptions C09_history_closed_loop_independent.
+
+(* with valid credentials EVERY login of EVERY history completes: each session's server asks for its
+   credentials (each at most twice: one re-prompt), then shows the shell prompt; any chunking *)
+Theorem C09_history_every_login_completes : forall cf ss,
+  empties cf ->
+  Forall (fun s =>
+    map p_exp (se_asked s) = map XCred (se_cs s) /\ p_exp (se_ph s) = XShell /\
+    (forall c, occ c (se_cs s) <= 2)%nat /\
+    dlg_ok cf (se_asked s ++ se_ph s :: se_rest s) /\ no_kick_sched cf (se_sched s) /\
+    (total_len (se_asked s ++ [se_ph s]) < count_pos (se_sched s))%nat) ss ->
+  Forall2 (fun s r => snd r = ClStop ODone /\ answers (fst r) = se_cs s /\ count_ret (fst r) = 0%nat)
+          ss (hist_cl gen_counter_scope cf zero (map (fun s => (se_asked s ++ se_ph s :: se_rest s, se_sched s)) ss)).
+Proof. exact history_completes_local. Qed.
+Print Assumptions C09_history_every_login_completes.
+
+(* the scope is what makes it true: were the counters attributes of the channel object, the third of
+   three accepted logins would raise ScrapliAuthenticationFailed on the first prompt it sees *)
+Theorem C09_history_object_scope_refuted : ~ history_completes_for CsObject.
+Proof. exact history_completes_object_refuted. Qed.
+Print Assumptions C09_history_object_scope_refuted.
+
 (* ---- where the full statements are false ---- *)
 (* (1) the proviso read as "no complete LINE looks like a prompt": refuted on the patterns of the
    current tree by the MOTD line "Last login: Tue" read byte by byte; partial = proviso on every
